@@ -105,6 +105,13 @@ func (c *HyperlaneController) HandlePacket(
 		return errorsmod.Wrap(err, "error extracting Hyperlane forwarding attributes")
 	}
 
+	err = c.ValidateForwarding(ctx, packet.TransferAttributes, attr)
+	if err != nil {
+		return core.ErrValidation.Wrapf("invalid Hyperlane forwarding: %s", err.Error())
+	}
+
+	// NOTE: the conversion to HexAddress panics if the recipient is shorter than 32 bytes, so the
+	// attributes are logged only after their validation.
 	c.logger.Debug(
 		"forwarding attributes",
 		"token_id",
@@ -114,11 +121,6 @@ func (c *HyperlaneController) HandlePacket(
 		"recipient",
 		hyperlaneutil.HexAddress(attr.Recipient),
 	)
-
-	err = c.ValidateForwarding(ctx, packet.TransferAttributes, attr)
-	if err != nil {
-		return core.ErrValidation.Wrapf("invalid Hyperlane forwarding: %s", err.Error())
-	}
 
 	err = c.executeForwarding(
 		ctx,
